@@ -35,7 +35,7 @@ func init() {
 			"corrupt: every single-character substitution (alphabet of hex digits, upper-case hex, ':' and non-hex letters), deletion and insertion of valid encodings; library accepts => reference accepts with the same tuple. " +
 			"distinct_nontrivial = distinct (prefix,version,network,payload) tuples whose encoding was produced and decoded, plus distinct corrupted texts that differ from their origin.",
 		Assum: []string{"reference BIP276 codec in /verif/internal/refaddr written from the BIP text (checksum = first 4 bytes of sha256d over everything before it)",
-			"a corruption that only changes the case of a hex digit is recorded, not judged"},
+			"a corruption that only changes the case of a payload hex digit is recorded, not judged; the eight checksum digits are judged strictly (lower-case hex of the hash of the preceding text)"},
 		Exhaustive: func(string) bool { return true },
 	}
 	rt := mon.Kind(p, "rt", c17JudgeRT)
@@ -224,7 +224,8 @@ func c17JudgeText(c *mon.Ctx, in *c17Text) {
 	c.Count("corrupt:lib-accepted")
 	ref, rerr := refaddr.DecodeBIP276(in.Text)
 	if rerr != nil {
-		if in.Origin != "" && strings.EqualFold(in.Text, in.Origin) {
+		if in.Origin != "" && len(in.Text) == len(in.Origin) && len(in.Text) > 8 && in.Text[len(in.Text)-8:] == in.Origin[len(in.Origin)-8:] && strings.EqualFold(in.Text, in.Origin) {
+			// only the case of a payload digit changed (the checksum field itself is judged strictly)
 			c.Count("corrupt:case-only-change-accepted(not judged)")
 			return
 		}
